@@ -31,6 +31,7 @@ EXPLANATION = ("the real writexml -> readxml.parse code is executed symbolically
 TRUSTED = ["xml.etree.ElementTree: Element/append/findall/find/iter/attrib/text store and return what they are given; tostring/parse are inverse (pyvc/iomodel.py)",
            "uproot: recreate truncates, file[name] = (values, edges) stores a histogram without weights, open()[name].to_numpy()[0] returns the stored bin contents as doubles; "
            "a handle opened earlier keeps showing the file as it was when opened",
+           "file system: every write gives a file a new (st_mtime_ns, st_size) stamp, i.e. rewritten files are distinguishable by os.stat (assumed; mtime granularity not modelled)",
            "float(str(x)) == x for the numbers written into attributes (CPython repr round trip)",
            "numpy: asarray/array/zeros_like/divide(out, where, dtype)/multiply/sqrt/arange as modelled in pyvc/iomodel.py, incl. the same_kind casting rule of ufunc outputs",
            "pathlib (PurePosixPath semantics), shutil.copyfile (no effect on the result), tqdm (iterates its argument), re.search on concrete names (CPython)",
